@@ -141,6 +141,8 @@ def evaluate(dep, program):
             if m.get("map") is None or m["map"] >= len(calls):
                 continue
             c = calls[m["map"]]
+            if any(t["kind"] == "unknown" for t in m["tasks"]):
+                continue
             want = [(tuple(t[0]) if isinstance(t[0], tuple) else [int(x) for x in t[0]]) for t in c["tasks"]]
             got = [(tuple(t["rows"]) if t["kind"] == "range" else [int(x) for x in t["rows"]]) for t in m["tasks"]]
             probe("seam_vs_partition_compared")
@@ -157,6 +159,8 @@ def evaluate(dep, program):
         if c["pool_maps_before"] >= len(maps):
             continue  # the call failed before reaching the pool
         m = maps[c["pool_maps_before"]]
+        if any(t["kind"] == "unknown" for t in m["tasks"]):
+            continue
         rows = []
         for t in m["tasks"]:
             rows += list(range(*t["rows"])) if t["kind"] == "range" else [int(x) for x in t["rows"]]
@@ -180,6 +184,8 @@ def evaluate(dep, program):
         if op["op"] == "mll" and rec["raised"] is None:
             N = dep.world.libraries[op.get("lib", 0)].n
             for m in rec["maps"]:
+                if any(t["kind"] == "unknown" for t in m["tasks"]):
+                    continue
                 rows = []
                 for t in m["tasks"]:
                     rows += list(range(*t["rows"])) if t["kind"] == "range" else [int(x) for x in t["rows"]]
